@@ -4,9 +4,10 @@ Engine K.  Linear count-min and heavy hitters: exact bit-vector one-step obligat
 any distance of 2^32-1 included): no add or merge lowers any key's estimate, an estimate at the ceiling stays there, a
 heavy-hitter cell whose key is re-added / merged with the same key only grows (to the cap).  Log sketches:
 _log_counter is monotone, never passes uint_maxval and stays at it (IEEE mode); merged log counters are never below an
-input and reach the ceiling from max_count on (real-idealised, shared with C09); _func(b) = 0 is exactly 'the ceiling
-decodes to max_count' (real-idealised) and _find_base hands the constructor's parameters unchanged to _func/_funcprime in
-every Newton step and raises ValueError iff the final base is below 1.000000001."""
+input and reach the ceiling from max_count on (real-idealised, shared with C09); (decoded ceiling - max_count)(b - 1) ==
+_func(b) (real-idealised); _find_base hands the constructor's parameters unchanged to _func/_funcprime, raises ValueError on
+every non-returning outcome, and its returning path carries the certificate |_func(returned base)| <= 1e-6 max_count (b-1):
+every accepted configuration decodes its ceiling to max_count (this obligation found defect F4, DESIGN.md section 5)."""
 import os
 import sys
 import time
@@ -384,7 +385,7 @@ def main():
         for grp in ("never below either input", "max_count => ceiling"):
             obs.append(common.Ob(f"log{bits} merge (real-idealised): {grp}", realmode.ob_merge_ideal, (bits, tmo, grp), hard_s=tmo / 1000 * 3 + 120, bounds={"bits": bits}))
     obs.append(common.Ob("_func(b) == (decoded ceiling - max_count) * (b - 1) (real-idealised)", ob_func_char, (tmo,), hard_s=tmo / 1000 + 120, bounds={"uint_max": "1..65535 symbolic", "max_count": "< 2^63 symbolic"}))
-    obs.append(common.Ob("_find_base: 200 Newton steps on exactly the given parameters; ValueError iff base < 1.000000001", ob_find_base_plumbing, (tmo,), hard_s=tmo / 1000 * 6 + 300, bounds={"max_count": "all uint64", "loop": "200 iterations unrolled"}))
+    obs.append(common.Ob("_find_base: parameters handed on unchanged, ValueError otherwise, certificate |_func(base)| <= 1e-6 max_count (base-1) on the returning path", ob_find_base_plumbing, (tmo,), hard_s=tmo / 1000 * 6 + 300, bounds={"max_count": "all uint64", "loop": "200 iterations unrolled"}))
     from engine import wrun
     wobs, wmeta = wrun.obligations("c18", tier)
     obs += wobs
@@ -398,9 +399,9 @@ def main():
         bounds={"linear_shapes(width,depth)": shapes, "heavy_hitter_max_key_len": mkls, "log": "symbolic counter / num_reserved / base; _find_base loop fully unrolled (200)"},
         stubs=["fasthash64 -> uninterpreted columns", "_rand -> arbitrary draw", "pow/log uninterpreted (IEEE mode) or with algebraic laws (real-idealised)", "_func/_funcprime recorded when checking _find_base's plumbing"],
         assumptions=["Numba lowering preserves typed-IR semantics", "the add()/update(dict) wrappers of CountMinLinear and HeavyHitters cap multiplicities at 2^32-1 before the (uint32) kernel argument: CrossHair conditions of w_c12 attached"],
-        outside=["that 200 Newton steps converge, and that the ValueError threshold fires exactly for the configurations whose ceiling would not decode to max_count (numeric iteration through **, not encodable; the replay of any plumbing counterexample does check real constructors)",
+        outside=["which configurations the constructor refuses (only that accepted ones decode their ceiling to max_count, relative 1e-6, idealised over the reals)",
                  "float rounding in the log counters"],
-        explanation="saturating behaviour of every counter update decided on the real kernels from arbitrary states; _find_base reduced to its characteristic equation (idealised) and parameter plumbing",
+        explanation="saturating behaviour of every counter update decided on the real kernels from arbitrary states; _find_base decided through a certificate on its returning path plus the lemma (decoded ceiling - max_count)(b - 1) == _func(b)",
         technique="symbolic execution of Numba typed IR + z3 (QF_BV; QF_FPBV with uninterpreted pow; NRA real-idealised with math-mode integers)")
 
 
